@@ -722,6 +722,8 @@ func (c *Client) Start(msg *Message, handler Handler) error {
 			return err
 		}
 		if err := c.a.Start(msg.TransactionID, d); err != nil {
+			c.delete(msg.TransactionID)
+
 			return err
 		}
 	}
